@@ -5,6 +5,7 @@ import (
 	"flag"
 	"fmt"
 	"os"
+	"runtime/pprof"
 	"sort"
 	"strings"
 	"time"
@@ -54,12 +55,20 @@ func Main(property string, gen func(tier string) []Scenario) {
 	replay := flag.String("replay", "", "replay file")
 	only := flag.String("only", "", "run only scenarios whose name contains this")
 	maxb := flag.Int("maxbound", -1, "override every scenario's bound")
+	cpuprof := flag.String("cpuprofile", "", "write a CPU profile (debugging the harness itself)")
 	nomemo := flag.Bool("nomemo", false, "disable the happens-before memo (self-test: the outcome sets must not change)")
 	flag.Parse()
 	var si, sn int
 	fmt.Sscanf(*shard, "%d/%d", &si, &sn)
 	if sn < 1 {
 		sn = 1
+	}
+	if *cpuprof != "" {
+		f, err := os.Create(*cpuprof)
+		if err == nil {
+			pprof.StartCPUProfile(f)
+			defer pprof.StopCPUProfile()
+		}
 	}
 	scs := gen(*tier)
 	if *replay != "" {
